@@ -21,6 +21,12 @@ check("C16", "model_checking",
       "Trusted: the harness' list subclass standing in for expand_stack; the pure-Lua ustring stand-in page. Calls that raise are judged by C05, not here.",
       "DESIGN.md §3 C16")
 
+check("C10", "model_checking",
+      "explicit-state exploration of operation histories on the real page store against a dict reference model (every sequence up to the length bound, fresh context and file database per history)",
+      "All histories of length <= 3 (quick) / <= 4 (thorough, 3.7M) over adds of four identities whose spellings collide, redirects, commit, reopen and probes under every spelling variant are executed on the real Wtp and every read API is compared with the reference after each step. This is the read-write-read and reopen ordering space the one-shot unit tests never enter.",
+      "Trusted: the 60-line dict reference (normalisation rules taken from the statement); SQLite itself; lookups with namespace_id=None only probed with the exact stored title.",
+      "DESIGN.md §3 C10")
+
 NOT_APPLICABLE = {}
 for i in range(1, 21):
     pid = "C%02d" % i
